@@ -343,26 +343,6 @@ end SkNet.Cycles
 namespace SkNet.Cycles
 open SkNet SkNet.Connectivity
 
-theorem isChain_mono {adj adj' : Nat → List Nat} (hsub : ∀ u v, v ∈ adj u → v ∈ adj' u) (l : List Nat)
-    (h : isChain adj l = true) : isChain adj' l = true := by
-  induction l with
-  | nil => rfl
-  | cons x l ih =>
-    cases l with
-    | nil => rfl
-    | cons y l =>
-      rw [isChain_cons_cons] at h ⊢
-      simp only [Bool.and_eq_true, List.contains_iff_mem] at h ⊢
-      exact ⟨hsub x y h.1, ih h.2⟩
-
-theorem isSimpleCycle_mono {n : Nat} {adj adj' : Nat → List Nat} (hsub : ∀ u v, v ∈ adj u → v ∈ adj' u)
-    {d : Bool} {C : List Nat} (h : IsSimpleCycle n adj d C) : IsSimpleCycle n adj' d C := by
-  obtain ⟨h1, h2, h3, h4⟩ := h
-  refine ⟨h1, h2, ?_, h4⟩
-  cases C with
-  | nil => exact absurd h3 (by simp [IsClosedChain])
-  | cons hd t => exact isChain_mono hsub (hd :: t ++ [hd]) h3
-
 namespace DirCtx
 
 /-- ★ `for label in cycle_labels:` — all components in turn -/
